@@ -6,7 +6,7 @@
    of this property, not by a theorem. *)
 From Coq Require Import String ZArith List Bool.
 From XV Require Import Base.Label Base.LSet Base.ODict Base.Attr Base.Outcome Model.Hypergraph
-  Model.HgCheck Model.Copy Proofs.HgViews Proofs.HgInv Proofs.CopyProofs Proofs.DerivedProofs.
+  Model.HgCheck Model.Copy Proofs.HgViews Proofs.HgInv Proofs.HgStep Proofs.CopyProofs Proofs.DerivedProofs Proofs.NoNoneProofs.
 Import ListNotations.
 Open Scope Z_scope.
 
@@ -54,3 +54,11 @@ Example C07_nonvacuous :
   h_uid (st_of (hg_dup false s)) = 6.
 Proof. vm_compute. repeat split. Qed.
 Print Assumptions C07_nonvacuous.
+
+(* the premises Inv and NoNone hold at every state reachable by an admissible history in which no
+   explicit edge id is None (Python cannot pass one: idx=None means "automatic") *)
+Theorem C07_premises_reachable : forall ops,
+  admissible_history hg_empty ops -> expressible_history ops ->
+  Inv (run ops hg_empty) /\ NoNone (run ops hg_empty).
+Proof. intros ops A E. apply run_NoNone; [exact A|exact E|apply Inv_empty|apply NoNone_empty]. Qed.
+Print Assumptions C07_premises_reachable.
